@@ -7,7 +7,8 @@ PROP = "C13"
 LEVEL = "exploration"
 RULE = (
     "case = (component, T, T0, T1, T2): built-in component or synthetic Antoine / Frost constants (Antoine c in "
-    "-150..50, so the pole is approached to within 20 K) with a random cubic heat-capacity polynomial; temperatures "
+    "-150..50, so the pole is approached to within 20 K; 30 % with b of either sign / Frost c up to +-1.5e6, i.e. ln Psat "
+    "not monotone in T) with a random cubic heat-capacity polynomial; temperatures "
     "200-500 K. Clausius-Clapeyron is checked with Richardson-extrapolated central differences of the real "
     "get_vapor_pressure, the cooling heat against 5-point Gauss-Legendre quadrature of the real get_specific_heat, "
     "plus additivity / antisymmetry / empty interval / derivative. non-trivial = every case (T1 != T0); distinct = "
@@ -47,6 +48,11 @@ def run_shard(spec, rep):
             v = comp.vapour_pressure_constants
             if v.type == "antoine" and rng.random() < 0.5:
                 v.c = rng.uniform(-150, 50)
+            if rng.random() < 0.3:  # wide ranges: constants for which ln Psat is not monotone / falls with T
+                if v.type == "antoine":
+                    v.b = rng.uniform(-3000, 1000)
+                else:
+                    v.b, v.c = rng.uniform(-8000, 2000), rng.uniform(-1.5e6, 1.5e6)
             h = comp.heat_capacity_constants
             h.a, h.b, h.c, h.d = rng.uniform(-200, 300), rng.uniform(-1, 1), rng.uniform(-3e-3, 3e-3), rng.uniform(-5e-6, 5e-6)
             cls = "synthetic-" + v.type
@@ -59,9 +65,14 @@ def run_shard(spec, rep):
         case = {"index": index, "component": gen.describe_component(comp), "T": t, "T012": [t0, t1, t2]}
         rep.case(case, cls=cls)
         try:
+            if not all(0 < comp.get_vapor_pressure(t + d) < float("inf") for d in (-H, 0.0, H)):
+                rep.count("skipped_vapour_pressure_out_of_float_range")
+                continue
             hv = comp.get_vaporisation_heat(t)
             ref = R * t * t * _richardson(lambda x: math.log(comp.get_vapor_pressure(x)), t, H) / 1000
-            rep.check("Hvap = R T^2 dlnPsat/dT", abs(hv - ref), 1e-9 * abs(ref) + 1e-14, case, {"got": hv, "ref": ref})
+            # the numerical derivative carries the round-off of ln Psat divided by the step (matters where Hvap passes through 0)
+            noise = 256 * 2.0**-52 * (1 + abs(math.log(comp.get_vapor_pressure(t)))) / H * R * t * t / 1000
+            rep.check("Hvap = R T^2 dlnPsat/dT", abs(hv - ref), 1e-9 * abs(ref) + noise, case, {"got": hv, "ref": ref})
             c01 = comp.get_cooling_heat(t0, t1)
             c12 = comp.get_cooling_heat(t1, t2)
             c02 = comp.get_cooling_heat(t0, t2)
